@@ -257,6 +257,11 @@ class SpecMixin:
             hint = self.declared_attr_type(base.cls, name) if base.cls is not None else None
             if hint is not None:
                 kinds, ci, optional = hint
+                fact = self.type_fact(st, val, kinds, ci, optional)
+                if fact is not None:
+                    # the declared attribute type is an ASSUMPTION (recorded): the hint below must be backed by the fact
+                    st.assume(fact)
+                    self.assumptions_used.add(f'declared type of {base.cls.name}.{name} assumed: {self.hint_str(hint)}')
                 if ci is not None and not kinds:
                     return SV(val, None if optional else 'ref', ci)
                 if ci is None and len(kinds) == 1 and not optional:
@@ -616,7 +621,13 @@ class SpecMixin:
 
     def sf_dhas(self, st, node, env, cmod):
         d, k = self._args(st, node, env, cmod)
-        return BoolTermV(self.dict_has(st, r_of(self.to_term(st, d)), self.to_term(st, k)))
+        r = r_of(self.to_term(st, d))
+        has = self.dict_has(st, r, self.to_term(st, k))
+        # a mapping that has a key is not empty (instance fact relating the membership and length views)
+        st.assume(z3.Implies(has, z3.Select(st.DL, r) >= 1))
+        # heap well-formedness: the keys of a mapping of this state are values that exist in this state
+        st.assume(z3.Implies(has, self.older(st, self.to_term(st, k))))
+        return BoolTermV(has)
 
     sf_set_has = sf_dhas
 
